@@ -42,14 +42,14 @@ func wsWErr(err error) string {
 	return "err.internal"
 }
 
-// chunkReader: an io.Reader (deliberately not an io.WriterTo) that hands out at most ks[i] bytes on
+// wsChunkReader: an io.Reader (deliberately not an io.WriterTo) that hands out at most ks[i] bytes on
 // the i-th call and everything that fits once the script is used up; io.EOF separately at the end.
-type chunkReader struct {
+type wsChunkReader struct {
 	data []byte
 	ks   []int
 }
 
-func (r *chunkReader) Read(p []byte) (int, error) {
+func (r *wsChunkReader) Read(p []byte) (int, error) {
 	if len(r.data) == 0 {
 		return 0, io.EOF
 	}
@@ -281,7 +281,7 @@ func (g *c13Gen) message() {
 				ks[i] = 1
 			}
 		}
-		src := &chunkReader{data: data, ks: append([]int(nil), ks...)}
+		src := &wsChunkReader{data: data, ks: append([]int(nil), ks...)}
 		if compressed {
 			// the flate wrapper has no ReadFrom: io.Copy reads 32 KiB blocks and calls Write
 			rec := &recWriter{w: w}
@@ -686,7 +686,7 @@ func c13Single(c *h.Ctx, B int, server bool, sz int) {
 			ops = []string{"N;2", "S;" + field, "C"}
 		case 3:
 			w, _ := conn.NextWriter(ws.BinaryMessage)
-			io.Copy(w, &chunkReader{data: data})
+			io.Copy(w, &wsChunkReader{data: data})
 			w.Close()
 			ops = []string{"N;2", "R;_;" + field, "C"}
 		}
